@@ -101,8 +101,14 @@ func cacheGenPool(r *common.Rand, n int, mode string) (map[string]common.JEvent,
 	kinds := kindsByMode[mode]
 	dvals := []string{"", "a", "b"}
 	evs := make([]common.JEvent, n)
+	// one pool in eight has events whose created_at lies at the ends of int64 (a comparison written as
+	// a subtraction, or through time.Unix, orders those wrongly)
+	extreme := r.Chance(12)
 	for i := 0; i < n; i++ {
 		e := common.JEvent{ID: ids[i], PK: common.Pick(r, cacheAuthors), TS: int64(r.Intn(7)), Kind: common.Pick(r, kinds), Tags: [][]string{}}
+		if extreme && r.Chance(35) {
+			e.TS = common.Pick(r, common.ExtremeTS)
+		}
 		// ordinary tags (for the index)
 		for k := r.Intn(3); k > 0; k-- {
 			switch r.Intn(5) {
@@ -278,7 +284,13 @@ func cacheGen(r *common.Rand, mode string) cacheCase {
 		if r.Chance(12) && i > 0 { // re-offer an earlier event
 			st.E = c.Steps[r.Intn(i)].E
 		}
-		for q := 0; q < nq; q++ {
+		nqs := nq
+		if nq == 0 && r.Chance(20) {
+			// the insertion histories of C04/C05 are interleaved with a few queries: reading must not
+			// change what the following insertions and deletion requests find
+			nqs = 1
+		}
+		for q := 0; q < nqs; q++ {
 			nf := 1 + r.Intn(3)
 			sel := []int{10, 30, 55}[r.Intn(3)]
 			var fs []common.JFilter
